@@ -10,6 +10,17 @@ Property theorems only (helpers: `Proofs/Lemmas/Lqr.lean`).  The model is `Pose/
 `Σ ½ τᵀQ_tτ + p_tᵀτ` when the inputs `us` are applied from `x` at time `t`.
 All theorems hold for every state/input dimension, every horizon, time-varying data, every nominal
 trajectory and every clock value at entry; the Cholesky solve is a contract parameter (`SolverOK`).
+
+SCOPE of the optimality family (`hlin`): the backward pass linearises at time `s·dt` (`set_refpoint(t=t*dt)`), the roll-outs
+advance the clock by one per step. The theorems therefore assume `A (s·dt) = A s ∧ B (s·dt) = B s` for the steps the
+backward pass reads (`s + 1 < T`): true for LTI systems with any `dt` and for LTV systems with `dt = 1`
+(`hlin_lti`, `hlin_dt_one`, and the hypothesis-free corollaries `*_ltv`). For an indexed LTV with `dt ≠ 1` the real code
+is NOT optimal (observed: T = 4, dt = 2: gradient 53, cost 45.4 vs ≈ 3.7) — the property text does not mention `dt`;
+recorded as an observation in notes/C14.md. The model has `dt : Nat`; real `dt` may be a float (LTI: irrelevant;
+`LTV.set_refpoint` truncates a float time into its int64 clock).
+
+Statements that are true by construction of the model (clock / history / copies) and bookkeeping lemmas live in
+`Proofs/Lemmas/Lqr.lean`, Part 9; independence of earlier calls is decided by the harness' history stream.
 -/
 open PP PP.Lqr Matrix
 
@@ -77,7 +88,7 @@ theorem cost_reported (sol : Solver ℝ ns nc) (S : Sys ℝ ns nc) (P : Prob ℝ
     (lqr sol S P dt x0 ubar).u.length = P.T := by
   unfold lqr lqrAt resetClock
   simp only
-  set xbar := nth (rollFrom S ubar 0 P.T x0)
+  set xbar := nth (rollFrom S ubar 0 0 P.T x0)
   set gs := (bwFrom sol S P dt xbar ubar 0 P.T).2 with hgs
   have h := fwFrom_sim S P xbar ubar gs 0 x0
   refine ⟨?_, ?_, ?_⟩
@@ -129,7 +140,7 @@ section optimalPSD
 variable (sol : Solver ℝ ns nc) (hsol : SolverOK sol)
   (A : Nat → Mat ℝ ns ns) (B : Nat → Mat ℝ ns nc) (c : Nat → Vec ℝ ns) (P : Prob ℝ ns nc) (dt : Nat)
   (hQ : ∀ s, s < P.T → CostOK (toM (P.Q s)))
-  (hlin : ∀ s, s < P.T → A (s * dt) = A s ∧ B (s * dt) = B s)
+  (hlin : ∀ s, s + 1 < P.T → A (s * dt) = A s ∧ B (s * dt) = B s)
 include hsol hQ hlin
 
 /-- the exact cost gap: any other input sequence costs `Σ ½ dτᵀQ dτ ≥ 0` more -/
@@ -139,10 +150,10 @@ theorem lqr_gap_psd (x0 : Vec ℝ ns) (ubar : Nat → Vec ℝ nc) (us' : List (V
   unfold lqr lqrAt resetClock
   simp only
   set S := Sys.linear A B c
-  set xbar := nth (rollFrom S ubar 0 P.T x0)
+  set xbar := nth (rollFrom S ubar 0 0 P.T x0)
   have hnom : ∀ s, 0 ≤ s → s + 1 < 0 + P.T → xbar (s+1) = S.f s (xbar s) (ubar s) := by
     intro s _ h
-    have := rollFrom_step S ubar P.T 0 x0 s (by omega)
+    have := rollFrom_step S ubar P.T 0 0 x0 s (by omega)
     simpa using this
   obtain ⟨_, hid⟩ := opt_identity sol P dt xbar ubar hsol A B c P.T 0
     (fun s _ h => hQ s (by omega)) (fun s _ h => hlin s (by omega)) hnom
@@ -226,7 +237,7 @@ theorem lqr_tail_optimal (x0 : Vec ℝ ns) (ubar : Nat → Vec ℝ nc) (t : Nat)
       ≤ (simulate (Sys.linear A B c) P t (nth (lqr sol (Sys.linear A B c) P dt x0 ubar).x t) us').2 := by
   unfold lqr lqrAt resetClock
   simp only
-  set xbar := nth (rollFrom (Sys.linear A B c) ubar 0 P.T x0) with hxb
+  set xbar := nth (rollFrom (Sys.linear A B c) ubar 0 0 P.T x0) with hxb
   set gs := (bwFrom sol (Sys.linear A B c) P dt xbar ubar 0 P.T).2 with hgs
   have hlen : gs.length = P.T := by rw [hgs, bwFrom_length]
   have hdrop := fwFrom_drop (Sys.linear A B c) P xbar ubar t 0 x0 gs (by omega)
@@ -238,7 +249,7 @@ theorem lqr_tail_optimal (x0 : Vec ℝ ns) (ubar : Nat → Vec ℝ nc) (t : Nat)
   set xt := nth (x0 :: (fwFrom (Sys.linear A B c) P xbar ubar 0 0 x0 gs).1) t
   have hnom : ∀ s, t ≤ s → s + 1 < t + (P.T - t) → xbar (s+1) = (Sys.linear A B c).f s (xbar s) (ubar s) := by
     intro s _ h
-    have := rollFrom_step (Sys.linear A B c) ubar P.T 0 x0 s (by omega)
+    have := rollFrom_step (Sys.linear A B c) ubar P.T 0 0 x0 s (by omega)
     simpa using this
   obtain ⟨_, hid⟩ := opt_identity sol P dt xbar ubar hsol A B c (P.T - t) t
     (fun s _ h => hQ s (by omega)) (fun s _ h => hlin s (by omega)) hnom
@@ -260,7 +271,7 @@ section optimal
 variable (sol : Solver ℝ ns nc) (hsol : SolverOK sol)
   (A : Nat → Mat ℝ ns ns) (B : Nat → Mat ℝ ns nc) (c : Nat → Vec ℝ ns) (P : Prob ℝ ns nc) (dt : Nat)
   (hQ : ∀ s, s < P.T → IsSym (toM (P.Q s)) ∧ IsPD (toM (P.Q s)))
-  (hlin : ∀ s, s < P.T → A (s * dt) = A s ∧ B (s * dt) = B s)
+  (hlin : ∀ s, s + 1 < P.T → A (s * dt) = A s ∧ B (s * dt) = B s)
 include hsol hQ hlin
 
 /-- the exact cost gap: any other input sequence costs `Σ ½ dτᵀQ dτ ≥ 0` more -/
@@ -309,79 +320,10 @@ end optimal
 
 /-! ### `rollout_affine`: the states are an affine function of (start, input sequence) -/
 
-/-- the difference of two roll-outs of a linear time-varying system depends only on the differences of the
-starts and of the inputs (`dprop`: `d⁺ = A_t d + B_t du`), for any horizon and dimensions -/
-theorem rollout_affine (A : Nat → Mat ℝ ns ns) (B : Nat → Mat ℝ ns nc) (c : Nat → Vec ℝ ns) (P : Prob ℝ ns nc)
-    (us us' : List (Vec ℝ nc)) (t : Nat) (x x' : Vec ℝ ns) (hl : us'.length = us.length) :
-    List.zipWith (fun a b => toFn a - toFn b) (simulate (Sys.linear A B c) P t x' us').1 (simulate (Sys.linear A B c) P t x us).1
-      = dprop A B t (toFn x' - toFn x) (udiff us' us) :=
-  simulate_diff A B c P us us' t x x' hl
-
 /-! ### `quadratic_stationary_global`: for a convex quadratic, a stationary point is a global minimiser
 (this is why "zero gradient w.r.t. every input" certifies optimality in the harness) -/
 
-theorem quadratic_stationary_global {n : Nat} (H : Matrix (Fin n) (Fin n) ℝ) (g u u' : Fin n → ℝ)
-    (hs : IsSym H) (hp : IsPSD H) (hst : H *ᵥ u + g = 0) :
-    (1:ℝ)/2 * (u ⬝ᵥ H *ᵥ u) + u ⬝ᵥ g ≤ (1:ℝ)/2 * (u' ⬝ᵥ H *ᵥ u') + u' ⬝ᵥ g := by
-  have e := stage_expand hs g u u'
-  rw [hst] at e
-  have := hp (u' - u)
-  simp only [zero_dotProduct] at e
-  linarith
-
 /-! ### independence of the clock at entry and of earlier calls on the same system object -/
-
-/-- whatever the clock when the solve is entered, the result is that of a fresh system and the clock is
-left at `T` (both passes are preceded by `system.reset()`) -/
-theorem clock_independent (sol : Solver ℝ ns nc) (S : Sys ℝ ns nc) (P : Prob ℝ ns nc) (dt : Nat) (x0 : Vec ℝ ns)
-    (ubar : Nat → Vec ℝ nc) (clk : Nat) :
-    lqrCall sol S P dt x0 ubar clk = (lqr sol S P dt x0 ubar, P.T) := by
-  simp [lqrCall, lqr, resetClock]
-
-/-- **any history**: solves interleaved with arbitrary clock writes and forward calls on one system object
-return what they would return on a fresh object, whatever the initial clock -/
-theorem history_independent (sol : Solver ℝ ns nc) (S : Sys ℝ ns nc) (ops : List (Op ℝ ns nc)) :
-    ∀ clk : Nat, (runHistory sol S ops clk).1 = freshSolves sol S ops := by
-  induction ops with
-  | nil => intro clk; rfl
-  | cons op ops ih =>
-    intro clk
-    cases op with
-    | solve P dt x0 ubar =>
-      simp only [runHistory, freshSolves, clock_independent]
-      rw [ih]
-    | setClock v => simp only [runHistory, freshSolves]; rw [ih]
-    | forward n => simp only [runHistory, freshSolves]; rw [ih]
-    | failed c => simp only [runHistory, freshSolves]; rw [ih]
-
-/-- **error paths are atomic for the property**: a call that raised and was caught (wherever it left the clock)
-changes no later result — the history with the failed call returns what the history without it returns -/
-theorem failed_call_harmless (sol : Solver ℝ ns nc) (S : Sys ℝ ns nc) (pre post : List (Op ℝ ns nc)) (c clk : Nat) :
-    (runHistory sol S (pre ++ .failed c :: post) clk).1 = (runHistory sol S (pre ++ post) clk).1 := by
-  rw [history_independent, history_independent]
-  induction pre with
-  | nil => rfl
-  | cons op pre ih => cases op <;> simp only [List.cons_append, freshSolves, ih]
-
-/-- **copies follow their own law**: an object and its copy (own clock each) used interleaved in any order —
-each returns, solve by solve, what it would return if the other did not exist -/
-theorem copies_independent (sol : Solver ℝ ns nc) (S : Sys ℝ ns nc) (ops : List (Bool × Op ℝ ns nc)) :
-    ∀ c1 c2 : Nat, runTwo sol S ops c1 c2
-      = (freshSolves sol S ((ops.filter fun o => o.1).map Prod.snd), freshSolves sol S ((ops.filter fun o => !o.1).map Prod.snd)) := by
-  induction ops with
-  | nil => intro c1 c2; rfl
-  | cons o rest ih =>
-    intro c1 c2
-    obtain ⟨b, op⟩ := o
-    cases b
-    · simp only [runTwo, ih, List.filter_cons, Bool.false_eq_true, if_false, Bool.not_false, if_true, List.map_cons]
-      have h := history_independent sol S [op] c2
-      rw [h]
-      cases op <;> simp [freshSolves]
-    · simp only [runTwo, ih, List.filter_cons, if_true, Bool.not_true, Bool.false_eq_true, if_false, List.map_cons]
-      have h := history_independent sol S [op] c1
-      rw [h]
-      cases op <;> simp [freshSolves]
 
 /-- the per-call argument `dt` is irrelevant for systems whose linearisation does not depend on time (LTI):
 calls with different `dt` on one object return the same result -/
@@ -393,12 +335,6 @@ theorem lqr_dt_irrelevant (sol : Solver ℝ ns nc) (S : Sys ℝ ns nc) (P : Prob
   simp only [bwFrom_dt sol S P dt dt' _ ubar hA hB P.T 0]
 
 /-! ### MPC -/
-
-/-- the value returned by `MPC.forward` is one LQR solve around the best inputs of the loop -/
-theorem mpc_is_lqr (sol : Solver ℝ ns nc) (S : Sys ℝ ns nc) (P : Prob ℝ ns nc) (dt : Nat) (x0 : Vec ℝ ns)
-    (fuel : Nat) (st : Stepper ℝ) (uinit : Option (List (Vec ℝ nc))) :
-    (mpc sol S P dt x0 fuel st uinit).1
-      = lqr sol S P dt x0 (nomOf (mpcLoop sol S P dt x0 fuel st.reset uinit ⟨uinit, none⟩ 0).1.u) := rfl
 
 /-- **iterative loop with best-so-far**: the loop runs at least once; every inner solve is linearised around
 the inputs of the previous one (`iterate`); the final solve is linearised around the inputs of an iteration
@@ -475,17 +411,6 @@ theorem mpc_iterations_bound (sol : Solver ℝ ns nc) (S : Sys ℝ ns nc) (P : P
     push_cast; omega)
   simpa [Stepper.reset] using h
 
-/-- `MPC.__init__`: with `stepper=None` the object holds `ReduceToBason(steps=10, patience=5, decreasing=1e-3, tol=1e-5)`
-with one step of its budget taken off; a given stepper keeps its parameters and loses one step -/
-theorem mpcInit_spec (st : Stepper ℝ) :
-    (mpcInit (none : Option (Stepper ℝ))).maxSteps = 9 ∧ (mpcInit (none : Option (Stepper ℝ))).patience = 5 ∧
-    (mpcInit (none : Option (Stepper ℝ))).decreasing = 1 / 1000 ∧ (mpcInit (none : Option (Stepper ℝ))).tol = 1 / 100000 ∧
-    (mpcInit (some st)).maxSteps = st.maxSteps - 1 ∧ (mpcInit (some st)).patience = st.patience ∧
-    (mpcInit (some st)).decreasing = st.decreasing ∧ (mpcInit (some st)).tol = st.tol := by
-  refine ⟨by simp [mpcInit, Stepper.default, Stepper.new], by simp [mpcInit, Stepper.default, Stepper.new], ?_, ?_, rfl, rfl, rfl, rfl⟩
-  · simp [mpcInit, Stepper.default, Stepper.new]
-  · simp [mpcInit, Stepper.default, Stepper.new]
-
 /-- hence an `MPC` object built with `stepper=None` runs at most 9 inner iterations per call, and one built around
 `ReduceToBason(steps=n)` at most `max(n-1, 1)` -/
 theorem mpc_object_iterations (sol : Solver ℝ ns nc) (S : Sys ℝ ns nc) (P : Prob ℝ ns nc) (dt : Nat) (x0 : Vec ℝ ns)
@@ -509,7 +434,7 @@ trajectory), whatever the stepper does and whatever `u_init` is -/
 theorem mpc_linear_eq_lqr (sol : Solver ℝ ns nc) (hsol : SolverOK sol)
     (A : Nat → Mat ℝ ns ns) (B : Nat → Mat ℝ ns nc) (c : Nat → Vec ℝ ns) (P : Prob ℝ ns nc) (dt : Nat)
     (hQ : ∀ s, s < P.T → IsSym (toM (P.Q s)) ∧ IsPD (toM (P.Q s)))
-    (hlin : ∀ s, s < P.T → A (s * dt) = A s ∧ B (s * dt) = B s)
+    (hlin : ∀ s, s + 1 < P.T → A (s * dt) = A s ∧ B (s * dt) = B s)
     (x0 : Vec ℝ ns) (fuel : Nat) (st : Stepper ℝ) (uinit : Option (List (Vec ℝ nc))) (ubar : Nat → Vec ℝ nc) :
     (mpc sol (Sys.linear A B c) P dt x0 fuel st uinit).1.u = (lqr sol (Sys.linear A B c) P dt x0 ubar).u ∧
     (mpc sol (Sys.linear A B c) P dt x0 fuel st uinit).1.x = (lqr sol (Sys.linear A B c) P dt x0 ubar).x ∧
@@ -521,7 +446,7 @@ theorem mpc_linear_eq_lqr (sol : Solver ℝ ns nc) (hsol : SolverOK sol)
 theorem mpc_linear_optimal (sol : Solver ℝ ns nc) (hsol : SolverOK sol)
     (A : Nat → Mat ℝ ns ns) (B : Nat → Mat ℝ ns nc) (c : Nat → Vec ℝ ns) (P : Prob ℝ ns nc) (dt : Nat)
     (hQ : ∀ s, s < P.T → IsSym (toM (P.Q s)) ∧ IsPD (toM (P.Q s)))
-    (hlin : ∀ s, s < P.T → A (s * dt) = A s ∧ B (s * dt) = B s)
+    (hlin : ∀ s, s + 1 < P.T → A (s * dt) = A s ∧ B (s * dt) = B s)
     (x0 : Vec ℝ ns) (fuel : Nat) (st : Stepper ℝ) (uinit : Option (List (Vec ℝ nc)))
     (us' : List (Vec ℝ nc)) (hl : us'.length = P.T) :
     (mpc sol (Sys.linear A B c) P dt x0 fuel st uinit).1.cost ≤ (simulate (Sys.linear A B c) P 0 x0 us').2 := by
@@ -532,7 +457,7 @@ theorem mpc_linear_optimal (sol : Solver ℝ ns nc) (hsol : SolverOK sol)
 theorem mpc_linear_eq_lqr_psd (sol : Solver ℝ ns nc) (hsol : SolverOK sol)
     (A : Nat → Mat ℝ ns ns) (B : Nat → Mat ℝ ns nc) (c : Nat → Vec ℝ ns) (P : Prob ℝ ns nc) (dt : Nat)
     (hQ : ∀ s, s < P.T → CostOK (toM (P.Q s)))
-    (hlin : ∀ s, s < P.T → A (s * dt) = A s ∧ B (s * dt) = B s)
+    (hlin : ∀ s, s + 1 < P.T → A (s * dt) = A s ∧ B (s * dt) = B s)
     (x0 : Vec ℝ ns) (fuel : Nat) (st : Stepper ℝ) (uinit : Option (List (Vec ℝ nc))) (ubar : Nat → Vec ℝ nc) :
     (mpc sol (Sys.linear A B c) P dt x0 fuel st uinit).1.u = (lqr sol (Sys.linear A B c) P dt x0 ubar).u ∧
     (mpc sol (Sys.linear A B c) P dt x0 fuel st uinit).1.x = (lqr sol (Sys.linear A B c) P dt x0 ubar).x ∧
@@ -546,7 +471,7 @@ final solve returns the same again — for every stepper, every `u_init`, every 
 theorem mpc_linear_one_iteration (sol : Solver ℝ ns nc) (hsol : SolverOK sol)
     (A : Nat → Mat ℝ ns ns) (B : Nat → Mat ℝ ns nc) (c : Nat → Vec ℝ ns) (P : Prob ℝ ns nc) (dt : Nat)
     (hQ : ∀ s, s < P.T → CostOK (toM (P.Q s)))
-    (hlin : ∀ s, s < P.T → A (s * dt) = A s ∧ B (s * dt) = B s)
+    (hlin : ∀ s, s + 1 < P.T → A (s * dt) = A s ∧ B (s * dt) = B s)
     (x0 : Vec ℝ ns) (uinit : Option (List (Vec ℝ nc))) (ubar : Nat → Vec ℝ nc) (i : Nat) :
     (iterate sol (Sys.linear A B c) P dt x0 uinit i).u = (lqr sol (Sys.linear A B c) P dt x0 ubar).u ∧
     (iterate sol (Sys.linear A B c) P dt x0 uinit i).x = (lqr sol (Sys.linear A B c) P dt x0 ubar).x ∧
@@ -576,7 +501,7 @@ theorem lqr_user_call_optimal (sol : Solver ℝ ns nc) (hsol : SolverOK sol)
     (A : Nat → Mat ℝ ns ns) (B : Nat → Mat ℝ ns nc) (c1 : Option (Nat → Vec ℝ ns))
     (T : Nat) (Q : PerStep (Mat ℝ (ns + nc) (ns + nc))) (p : PerStep (Vec ℝ (ns + nc))) (dt : Nat)
     (hQ : ∀ s, s < T → CostOK (toM (Q.get s)))
-    (hlin : ∀ s, s < T → A (s * dt) = A s ∧ B (s * dt) = B s)
+    (hlin : ∀ s, s + 1 < T → A (s * dt) = A s ∧ B (s * dt) = B s)
     (x0 : Vec ℝ ns) (utraj : Option (List (Vec ℝ nc))) (us' : List (Vec ℝ nc)) (hl : us'.length = T) :
     let S := Sys.linearOpt A B c1
     let P := Prob.ofArgs T Q p
@@ -599,6 +524,94 @@ theorem lqr_user_call_optimal (sol : Solver ℝ ns nc) (hsol : SolverOK sol)
 /-- `Q` given once: the guard on the single matrix is the guard at every step (any horizon) -/
 theorem costOK_once (Q : Mat ℝ (ns + nc) (ns + nc)) (h : CostOK (toM Q)) (T : Nat) :
     ∀ s, s < T → CostOK (toM ((PerStep.once Q).get s)) := fun _ _ => h
+
+/-! ### the scope hypothesis `hlin` discharged: LTI with any `dt`, LTV with `dt = 1` -/
+
+/-- `dt = 1` (the LTV clause of the property): the backward pass reads the matrices of the step it is at -/
+theorem hlin_dt_one (A : Nat → Mat ℝ ns ns) (B : Nat → Mat ℝ ns nc) (T : Nat) :
+    ∀ s, s + 1 < T → A (s * 1) = A s ∧ B (s * 1) = B s := fun s _ => by simp
+
+/-- time-invariant matrices (LTI), any `dt` -/
+theorem hlin_lti (A0 : Mat ℝ ns ns) (B0 : Mat ℝ ns nc) (dt T : Nat) :
+    ∀ s, s + 1 < T → (fun _ : Nat => A0) (s * dt) = (fun _ : Nat => A0) s ∧ (fun _ : Nat => B0) (s * dt) = (fun _ : Nat => B0) s :=
+  fun _ _ => ⟨rfl, rfl⟩
+
+/-- **the property's LTV clause without any scope hypothesis** (`dt = 1`, arbitrary time-varying `A_t, B_t, c_t, Q_t, p_t`):
+global optimality, uniqueness, independence of the nominal -/
+theorem lqr_optimal_ltv (sol : Solver ℝ ns nc) (hsol : SolverOK sol)
+    (A : Nat → Mat ℝ ns ns) (B : Nat → Mat ℝ ns nc) (c : Nat → Vec ℝ ns) (P : Prob ℝ ns nc)
+    (hQ : ∀ s, s < P.T → CostOK (toM (P.Q s))) (x0 : Vec ℝ ns) (ubar ubar' : Nat → Vec ℝ nc)
+    (us' : List (Vec ℝ nc)) (hl : us'.length = P.T) :
+    (lqr sol (Sys.linear A B c) P 1 x0 ubar).cost ≤ (simulate (Sys.linear A B c) P 0 x0 us').2 ∧
+    ((simulate (Sys.linear A B c) P 0 x0 us').2 ≤ (lqr sol (Sys.linear A B c) P 1 x0 ubar).cost → us' = (lqr sol (Sys.linear A B c) P 1 x0 ubar).u) ∧
+    (lqr sol (Sys.linear A B c) P 1 x0 ubar').u = (lqr sol (Sys.linear A B c) P 1 x0 ubar).u :=
+  ⟨lqr_optimal_psd sol hsol A B c P 1 hQ (hlin_dt_one A B P.T) x0 ubar us' hl,
+   lqr_unique_psd sol hsol A B c P 1 hQ (hlin_dt_one A B P.T) x0 ubar us' hl,
+   (nominal_independent_psd sol hsol A B c P 1 hQ (hlin_dt_one A B P.T) x0 ubar ubar').1⟩
+
+/-- MPC on an LTV system with `dt = 1`: the LQR optimum, no scope hypothesis -/
+theorem mpc_linear_eq_lqr_ltv (sol : Solver ℝ ns nc) (hsol : SolverOK sol)
+    (A : Nat → Mat ℝ ns ns) (B : Nat → Mat ℝ ns nc) (c : Nat → Vec ℝ ns) (P : Prob ℝ ns nc)
+    (hQ : ∀ s, s < P.T → CostOK (toM (P.Q s)))
+    (x0 : Vec ℝ ns) (fuel : Nat) (st : Stepper ℝ) (uinit : Option (List (Vec ℝ nc))) (ubar : Nat → Vec ℝ nc) :
+    (mpc sol (Sys.linear A B c) P 1 x0 fuel st uinit).1.u = (lqr sol (Sys.linear A B c) P 1 x0 ubar).u ∧
+    (mpc sol (Sys.linear A B c) P 1 x0 fuel st uinit).1.x = (lqr sol (Sys.linear A B c) P 1 x0 ubar).x ∧
+    (mpc sol (Sys.linear A B c) P 1 x0 fuel st uinit).1.cost = (lqr sol (Sys.linear A B c) P 1 x0 ubar).cost :=
+  mpc_linear_eq_lqr_psd sol hsol A B c P 1 hQ (hlin_dt_one A B P.T) x0 fuel st uinit ubar
+
+/-! ### the error branches of `LQR.forward` (`lqrChecked`) -/
+
+/-- a `u_traj` with a number of steps other than `T` raises (the model never pads a short nominal with zeros here) -/
+theorem lqrChecked_nominal_error (sol : Solver ℝ ns nc) (S : Sys ℝ ns nc) (P : Prob ℝ ns nc) (dt : Nat) (x0 : Vec ℝ ns)
+    (l : List (Vec ℝ nc)) (h : l.length ≠ P.T) :
+    lqrChecked sol S P dt x0 (some l) = .error .nominalLength := by
+  unfold lqrChecked nominalOK
+  simp [h]
+
+/-- with a nominal of the right length (or none) the call raises exactly when `cholesky` rejects the `Quu` of some step -/
+theorem lqrChecked_notPD_iff (sol : Solver ℝ ns nc) (S : Sys ℝ ns nc) (P : Prob ℝ ns nc) (dt : Nat) (x0 : Vec ℝ ns)
+    (utraj : Option (List (Vec ℝ nc))) (hlen : ∀ l, utraj = some l → l.length = P.T) :
+    (lqrChecked sol S P dt x0 utraj = .error .notPD ↔ ∃ g ∈ (lqr sol S P dt x0 (nomOf utraj)).gains, sol.accepts g.Quu = false) ∧
+    (lqrChecked sol S P dt x0 utraj = .ok (lqr sol S P dt x0 (nomOf utraj)) ↔
+      ∀ g ∈ (lqr sol S P dt x0 (nomOf utraj)).gains, sol.accepts g.Quu = true) := by
+  have hl : nominalOK P.T utraj = true := by
+    cases utraj with
+    | none => rfl
+    | some l => simp [nominalOK, hlen l rfl]
+  unfold lqrChecked
+  simp only [hl, if_true]
+  by_cases hall : (lqr sol S P dt x0 (nomOf utraj)).gains.all (fun g => sol.accepts g.Quu) = true
+  · simp only [hall, if_true]
+    rw [List.all_eq_true] at hall
+    constructor
+    · constructor
+      · intro h; cases h
+      · rintro ⟨g, hg, hf⟩; have := hall g hg; simp [hf] at this
+    · exact ⟨fun _ => hall, fun _ => by trivial⟩
+  · simp only [hall]
+    have hex : ∃ g ∈ (lqr sol S P dt x0 (nomOf utraj)).gains, sol.accepts g.Quu = false := by
+      by_contra hne
+      apply hall
+      rw [List.all_eq_true]
+      intro g hg
+      by_contra hf
+      exact hne ⟨g, hg, by simpa using hf⟩
+    constructor
+    · exact ⟨fun _ => hex, fun _ => by trivial⟩
+    · constructor
+      · intro h; cases h
+      · intro h; obtain ⟨g, hg, hf⟩ := hex; have := h g hg; simp [hf] at this
+
+/-- **accepted inputs never take an error branch**: `Q_t` within the guard, a nominal of the right length (or none), a
+Cholesky that accepts symmetric PD matrices — for ANY system `LQR.forward` returns (the value of `lqr`) -/
+theorem lqrChecked_ok (sol : Solver ℝ ns nc) (hsol : SolverOK sol) (hacc : AcceptsOK sol) (S : Sys ℝ ns nc) (P : Prob ℝ ns nc)
+    (dt : Nat) (x0 : Vec ℝ ns) (utraj : Option (List (Vec ℝ nc))) (hlen : ∀ l, utraj = some l → l.length = P.T)
+    (hQ : ∀ s, s < P.T → CostOK (toM (P.Q s))) :
+    lqrChecked sol S P dt x0 utraj = .ok (lqr sol S P dt x0 (nomOf utraj)) := by
+  rw [(lqrChecked_notPD_iff sol S P dt x0 utraj hlen).2]
+  intro g hg
+  have := cholesky_precondition sol hsol S P dt x0 (nomOf utraj) hQ g hg
+  exact hacc g.Quu this.1 this.2.1
 
 /-! ### non-vacuity: the hypotheses are satisfiable (every dimension, every horizon) -/
 
